@@ -81,10 +81,19 @@ func VerifyFunction(p *Program, spec *Spec, fn *ssa.Function, con *Contract) (re
 		sig := fn.Signature
 		bindResults(env, sig, results)
 		trace := strings.Join(st.trace, " ")
+		for _, w := range con.OrmPost {
+			st.assume(env.term(w.Sx))
+		}
 		for _, e := range con.Ensures {
 			goal := env.term(e.Sx)
 			x.oblig(&Obligation{Name: fmt.Sprintf("post.%s#%d", e.Label, nret), Kind: "post", Label: e.Label,
 				Hyps: append([]string(nil), st.pc...), Goal: goal, Trace: trace, Src: e.Src})
+			// vacuity: the antecedent of an implication must be reachable on some return path
+			if e.Sx.Head() == "=>" && len(e.Sx.List) == 3 {
+				ante := env.term(e.Sx.List[1])
+				x.retOK = append(x.retOK, &Obligation{Name: fmt.Sprintf("cover.ante.%s#%d", e.Label, nret), Kind: "cover", Cover: true, Group: "ante." + e.Label,
+					Hyps: append(append([]string(nil), st.pc...), ante), Goal: "true", Trace: trace, Src: e.Src})
+			}
 		}
 		// frame: components written on this path must be covered by `modifies`
 		var bad []string
@@ -105,10 +114,10 @@ func VerifyFunction(p *Program, spec *Spec, fn *ssa.Function, con *Contract) (re
 		x.oblig(o)
 		// success cover candidate
 		if ev, ok := env.vars["err"].(Err); ok {
-			x.retOK = append(x.retOK, &Obligation{Name: fmt.Sprintf("cover.success#%d", nret), Kind: "cover", Cover: true,
+			x.retOK = append(x.retOK, &Obligation{Name: fmt.Sprintf("cover.success#%d", nret), Kind: "cover", Cover: true, Group: "success",
 				Hyps: append(append([]string(nil), st.pc...), eq(ev.ID, "0")), Goal: "true", Trace: trace})
 		} else {
-			x.retOK = append(x.retOK, &Obligation{Name: fmt.Sprintf("cover.return#%d", nret), Kind: "cover", Cover: true,
+			x.retOK = append(x.retOK, &Obligation{Name: fmt.Sprintf("cover.return#%d", nret), Kind: "cover", Cover: true, Group: "return",
 				Hyps: append([]string(nil), st.pc...), Goal: "true", Trace: trace})
 		}
 	})
